@@ -253,7 +253,10 @@ func (f *retainingFactory) New(b []byte) (securememory.Secret, error) {
 	}
 	s, err := f.inner.New(b)
 	f.w.leave(c, "real")
-	return s, err
+	if err != nil {
+		return nil, err
+	}
+	return &releaseFaultSecret{Secret: s, w: f.w, proc: f.proc}, nil
 }
 
 func (f *retainingFactory) CreateRandom(size int) (securememory.Secret, error) {
@@ -264,5 +267,49 @@ func (f *retainingFactory) CreateRandom(size int) (securememory.Secret, error) {
 	}
 	s, err := f.inner.CreateRandom(size)
 	f.w.leave(c, "real")
-	return s, err
+	if err != nil {
+		return nil, err
+	}
+	return &releaseFaultSecret{Secret: s, w: f.w, proc: f.proc}, nil
+}
+
+// releaseFaultSecret is a real secret whose access can be made to report what both implementations
+// report when re-protecting the pages after the callback fails (the kernel refuses the mprotect): the
+// callback's result together with an error.
+type releaseFaultSecret struct {
+	securememory.Secret
+	w    *World
+	proc int
+}
+
+var errRelease = errors.New("unable to mark memory as no-access: verif: injected mprotect failure")
+
+func (r *releaseFaultSecret) WithBytesFunc(action func([]byte) ([]byte, error)) ([]byte, error) {
+	ret, err := r.Secret.WithBytesFunc(action)
+	c, fault := r.w.enter("sf.release", r.proc, "", 0)
+	if fault != FNone {
+		r.w.leave(c, "err")
+		if err == nil {
+			err = errRelease
+		} else {
+			err = fmt.Errorf("%w: %v", errRelease, err)
+		}
+		return ret, err
+	}
+	r.w.leave(c, "ok")
+	return ret, err
+}
+
+func (r *releaseFaultSecret) WithBytes(action func([]byte) error) error {
+	err := r.Secret.WithBytes(action)
+	c, fault := r.w.enter("sf.release", r.proc, "", 0)
+	if fault != FNone {
+		r.w.leave(c, "err")
+		if err == nil {
+			return errRelease
+		}
+		return fmt.Errorf("%w: %v", errRelease, err)
+	}
+	r.w.leave(c, "ok")
+	return err
 }
